@@ -1,0 +1,33 @@
+//go:build verif
+
+package verifspec
+
+// Contracts for closures of compiler/prelude/types.js that $newType installs on struct types (properties C07, C08).
+//
+// A struct value is an object whose properties are the fields; `fields` (captured by the closures) is the array of field
+// descriptors {prop, name, typ, ...}.  Value objects are records by reference (identity + a row of the record heap),
+// descriptors are immutable (every field is a function of the identity).  valuekind(k): the field's type is an array
+// (17) or a struct (25), i.e. a value that lives in an object of its own.
+
+//@ pure valuekind(k int) bool = k == 17 || k == 25
+
+// typ.copy(dst, src): Go's assignment *dst = *src for a struct type.  Every field of scalar kind receives the source's
+// value; every field of array or struct kind keeps its own object (no aliasing with the source: a later mutation of either
+// side stays invisible to the other) and that object is filled by the field type's own copy from the source's object.
+// Nothing else of dst changes, src does not change.  Preconditions are the shape of a struct value: distinct property
+// names, nested value objects are objects of their own (not dst, not src, not shared between two fields).
+//@ js types.js $newType:$kindStruct:copy
+//@ property C07
+//@   param dst: rec, src: rec
+//@   captured fields: descarr
+//@   requires forall2(a, b, 0 <= a && a < b && b < len(fields) ==> fields[a].prop != fields[b].prop)
+//@   requires forall(k, 0, len(fields), valuekind(fields[k].typ.kind) ==> dst[fields[k].prop] != ref(dst) && dst[fields[k].prop] != ref(src))
+//@   requires forall2(a, b, 0 <= a && a < b && b < len(fields) && valuekind(fields[a].typ.kind) && valuekind(fields[b].typ.kind) ==> dst[fields[a].prop] != dst[fields[b].prop])
+//@   loop 1 invariant 0 <= i && i <= len(fields)
+//@   loop 1 invariant forall(k, 0, i, !valuekind(fields[k].typ.kind) ==> dst[fields[k].prop] == old(src[fields[k].prop]))
+//@   loop 1 invariant forall(k, 0, i, valuekind(fields[k].typ.kind) ==> dst[fields[k].prop] == old(dst[fields[k].prop]) && copiedFrom(dst[fields[k].prop]) == old(src[fields[k].prop]) && copiedBy(dst[fields[k].prop]) == fields[k].typ)
+//@   loop 1 invariant forall(k, i, len(fields), dst[fields[k].prop] == old(dst[fields[k].prop]))
+//@   loop 1 invariant ref(src) != ref(dst) ==> forall(k, 0, len(fields), src[fields[k].prop] == old(src[fields[k].prop]))
+//@   ensures forall(k, 0, len(fields), !valuekind(fields[k].typ.kind) ==> dst[fields[k].prop] == old(src[fields[k].prop]))
+//@   ensures forall(k, 0, len(fields), valuekind(fields[k].typ.kind) ==> dst[fields[k].prop] == old(dst[fields[k].prop]) && copiedFrom(dst[fields[k].prop]) == old(src[fields[k].prop]) && copiedBy(dst[fields[k].prop]) == fields[k].typ)
+//@   ensures ref(src) != ref(dst) ==> forall(k, 0, len(fields), src[fields[k].prop] == old(src[fields[k].prop]))
